@@ -1,11 +1,15 @@
-(* Extraction of the complex checker.  ExtrOcamlBasic only. *)
+(* Extraction of the complex checker and of the cobordism evaluation.  ExtrOcamlBasic only. *)
 Require Extraction.
 Require Import ExtrOcamlBasic.
 From Coq Require Import ZArith NArith List.
-Require Import Yui.Model.KhCube Yui.Model.KhSigns Yui.Model.KhHomology Yui.Model.KhCheck.
+Require Import Yui.Model.KhCube Yui.Model.KhSigns Yui.Model.KhHomology Yui.Model.KhCheck Yui.Model.CobEval.
 Extraction Language OCaml.
 Extraction "../ocaml/gen/c05_model.ml"
   Z.add N.add Nat.add
   KhSigns.signed_nums KhSigns.kh_crossing_signs
   KhCube.mirror KhCube.first_edge
-  KhCheck.p_norm KhCheck.check_complex KhCheck.specialise KhCheck.level_groups KhCheck.coeffs_reduced.
+  KhCheck.p_norm KhCheck.check_complex KhCheck.specialise KhCheck.level_groups KhCheck.coeffs_reduced
+  CobEval.eval_closed CobEval.eval_closed_fuel CobEval.part_eval_open CobEval.part_eval_open_fuel
+  CobEval.eval_closed_poly CobEval.cob_eval CobEval.cob_part_eval CobEval.cob_eval_poly CobEval.cob_deg
+  CobEval.deg CobEval.euler_num CobEval.is_zero_cob CobEval.is_unit_cob CobEval.should_part_eval
+  CobEval.should_part_eval_gen.
